@@ -252,6 +252,12 @@ def cases(tier):
         yield dict(devs=list(c), fmt="PDB")
         for k in range(len(CIF_OPTS)):
             yield dict(devs=list(c), fmt="mmCIF", opt=k)
+        if len(c) <= 1:
+            # the same atoms in other legal presentations of the text (short lines, CRLF, other records in between; reversed / quoted / extra columns)
+            for v in enumio.PDB_VARIANTS:
+                yield dict(devs=list(c), fmt="PDB", variant=v)
+            for v in enumio.CIF_VARIANTS:
+                yield dict(devs=list(c), fmt="mmCIF", opt=0, variant=v)
 
 
 CORPUS_Q = ["1HMH_1_E.cif", "6INQ.cif", "1DFU_1_M-N.cif", "4WTI_1_T-P.cif", "1E7K_1_C.cif", "184D.cif", "1A1T_1_B.cif", "4gqj-assembly1.cif", "6FC9.cif", "1JJP.cif", "1ATO.pdb", "6RS3.cif"]
@@ -306,9 +312,13 @@ def run_case(case):
         if any(a["occ"] is None for a in t):
             return dict(nontrivial=False, outcome="pdb-without-occupancy-skipped", violations=[])
         text = enumio.emit_pdb(t)
+        if case.get("variant"):
+            text = enumio.pdb_variant(text, case["variant"])
         ext = ".pdb"
     else:
         text = enumio.emit_cif(t, **CIF_OPTS[case["opt"]])
+        if case.get("variant"):
+            text = enumio.cif_variant(text, case["variant"])
         ext = ".cif"
     path = os.path.join(scratch_dir(), "c08" + ext)
     with open(path, "w") as f:
